@@ -183,7 +183,7 @@ EXTREME = ["1E999", "1E-999", "9" * 40, "&HFFFFFF", ".", "1E", "+-1", "65535", "
 def mutated(draw, switches):
     c = draw(full.full_programs(switches, max_lines=5, operand_depth=2))
     src = render.render(c["prog"], paren_unary="paren_unary" in switches)
-    kind = draw(st.sampled_from(["mutate", "mutate", "mutate", "splice", "nest", "none", "raw"]))
+    kind = draw(st.sampled_from(["mutate", "mutate", "mutate", "splice", "nest", "none", "raw", "lines", "lines"]))
     n_mut = 0
     if kind == "mutate":
         toks = TOKEN_RE.findall(src)
@@ -205,6 +205,31 @@ def mutated(draw, switches):
             else:
                 toks[i] = draw(st.sampled_from(EXTREME))
         src = "".join(toks)
+    elif kind == "lines":
+        # delete / duplicate / swap whole lines or whole statements (unbalanced FOR/NEXT, orphaned ELSE, repeated handlers ...)
+        ls = src.split("\n")
+        n_mut = draw(st.integers(1, 3))
+        for _ in range(n_mut):
+            if not ls:
+                break
+            i = draw(st.integers(0, len(ls) - 1))
+            op = draw(st.sampled_from(["del", "dup", "swap", "delstmt", "dupstmt"]))
+            if op == "del":
+                del ls[i]
+            elif op == "dup":
+                ls.insert(i, ls[i])
+            elif op == "swap":
+                j = draw(st.integers(0, len(ls) - 1))
+                ls[i], ls[j] = ls[j], ls[i]
+            else:
+                parts = ls[i].split(":")
+                q = draw(st.integers(0, len(parts) - 1))
+                if op == "delstmt" and len(parts) > 1 and q > 0:
+                    del parts[q]
+                elif op == "dupstmt":
+                    parts.insert(q + 1, parts[q] if q > 0 else parts[q].split(" ", 1)[-1])
+                ls[i] = ":".join(parts)
+        src = "\n".join(ls)
     elif kind == "splice":
         c2 = draw(full.full_programs(switches, max_lines=4, operand_depth=1))
         l1 = src.split("\n")
